@@ -96,7 +96,10 @@ DeployInterchainToken(st, a) ==
         st2 == [st EXCEPT !.reg[id] = "native", !.regTok[id] = id, !.tokMeta[id] = a.meta,
                           !.minters[id] = mint,
                           !.bal[id][a.caller] = IF a.supply > 0 THEN a.supply ELSE 0]
-    IN Guarded(st, fails, Acc(st2, id, <<>>))
+        res == Guarded(st, fails, Acc(st2, id, <<>>))
+    IN \* open by the statement: a negative supply (treated as none today) and naming the service itself
+       \* as minter without supply (refused today)
+       [res EXCEPT !.free = (fails = {} /\ a.supply < 0) \/ fails = {"invalid_minter"}]
 
 (* register_canonical_token(token_address): permissionless *)
 RegisterCanonical(st, a) ==
@@ -163,22 +166,17 @@ ApproveDelivery(st, a) ==
    recipient / minter = "garbage" means bytes that are not an address. *)
 IsRecv(p) == p.outer = "recv"
 
-(* execute(source_chain, message_id, source_address, payload) as submitted by a relayer with the
-   fields of delivery a.d *)
-Execute(st, a) ==
-    LET D == Deliveries[a.d]
-        P == Payloads[D.payload]
-        cur == st.appr[D.key]
-        approved == /\ cur \in DOMAIN Deliveries
-                    /\ Deliveries[cur].srcChain = D.srcChain /\ Deliveries[cur].srcAddr = D.srcAddr
-                    /\ Deliveries[cur].payload = D.payload /\ Deliveries[cur].dest = "its"
+(* execute(source_chain, message_id, source_address, payload): D = the submitted fields, `approved` =
+   the gateway holds a matching unexecuted approval for the service, `done` = state with it consumed *)
+ExecuteCore(st, D, approved, done, key) ==
+    LET P == Payloads[D.payload]
         wrapOK == IsRecv(P)
         decoded == wrapOK /\ P.decodes
         xfer == decoded /\ P.inner = "transfer"
         depl == decoded /\ P.inner = "deploy"
         known == xfer /\ st.reg[P.id] # "none"
         T == IF known THEN TokenOf(st, P.id) ELSE "none"
-        toOK == xfer /\ P.recipient # "garbage"
+        toOK == xfer /\ P.recipient \notin {"garbage", "garbageRaw"}
         fails ==
             (IF ~approved THEN {"approved"} ELSE {})
             \cup (IF ~wrapOK THEN {"is_receive_from_hub"} ELSE {})
@@ -193,8 +191,7 @@ Execute(st, a) ==
             \cup (IF xfer /\ toOK /\ P.data # "none" /\ P.recipient # "app" THEN {"receiver_ok"} ELSE {})
             \cup (IF depl /\ st.reg[P.id] # "none" THEN {"already_deployed"} ELSE {})
             \cup (IF depl /\ ~MetaValid(P.meta) THEN {"metadata"} ELSE {})
-            \cup (IF depl /\ P.minter = "garbage" THEN {"minter_decodes"} ELSE {})
-        done == [st EXCEPT !.appr[D.key] = "executed"]
+            \cup (IF depl /\ P.minter \in {"garbage", "garbageRaw"} THEN {"minter_decodes"} ELSE {})
         give == IF st.reg[P.id] = "native"
                 THEN [done EXCEPT !.bal[T][P.recipient] = @ + P.amt]                          \* minted
                 ELSE [done EXCEPT !.bal[T] = [[@ EXCEPT !["its"] = @ - P.amt] EXCEPT ![P.recipient] = @ + P.amt]]  \* released
@@ -203,11 +200,25 @@ Execute(st, a) ==
     IN IF fails # {} THEN Rej(st, First(fails), fails)
        ELSE IF P.inner = "transfer"
             THEN Acc(give, "unit",
-                     <<[k |-> "delivery_executed", key |-> D.key],
+                     <<[k |-> "delivery_executed", key |-> key],
                        [k |-> "transfer_received", origin |-> P.origin, id |-> P.id, recipient |-> P.recipient, amt |-> P.amt]>>
                      \o (IF P.data # "none"
                          THEN <<[k |-> "token_executed", app |-> P.recipient, id |-> P.id, amt |-> P.amt]>> ELSE <<>>))
-            ELSE Acc(deployed, "unit", <<[k |-> "delivery_executed", key |-> D.key]>>)
+            ELSE Acc(deployed, "unit", <<[k |-> "delivery_executed", key |-> key]>>)
+
+(* a relayer submits the fields of catalogue delivery a.d *)
+Execute(st, a) ==
+    LET D == Deliveries[a.d]
+        cur == st.appr[D.key]
+        approved == /\ cur \in DOMAIN Deliveries
+                    /\ Deliveries[cur].srcChain = D.srcChain /\ Deliveries[cur].srcAddr = D.srcAddr
+                    /\ Deliveries[cur].payload = D.payload /\ Deliveries[cur].dest = "its"
+    IN ExecuteCore(st, D, approved, [st EXCEPT !.appr[D.key] = "executed"], D.key)
+
+(* a hub delivery under a fresh message id, approved for the service and executed at once (instances
+   whose subject is not the approval table use it to feed inbound messages without tracking ids) *)
+Deliver(st, a) ==
+    ExecuteCore(st, [srcChain |-> HubChain, srcAddr |-> HubAddr, payload |-> a.payload], TRUE, st, "fresh")
 
 -----------------------------------------------------------------------------
 (* actions of other parties on the tokens (instances use them to build histories) *)
@@ -229,6 +240,7 @@ Apply(st, a) ==
       [] a.name = "InterchainTransfer"           -> InterchainTransfer(st, a)
       [] a.name = "ApproveDelivery"              -> ApproveDelivery(st, a)
       [] a.name = "Execute"                      -> Execute(st, a)
+      [] a.name = "Deliver"                      -> Deliver(st, a)
       [] a.name = "MinterMint"                   -> MinterMint(st, a)
       [] a.name = "SetFakeMeta"                  -> SetFakeMeta(st, a)
 
